@@ -709,7 +709,9 @@ PLANS = {
     "C05": Plan("nc", "TraceNetcodeMon", ["C05"], [("handshake_histories", g_nc_handshake), ("token_table", g_nc_tokentable),
                                                        ("token_table_under", g_nc_tokentable_under)],
                 mc=[mc_job("nc_cross", "MC_Netcode", {"quick": ["MC_NC_q1.cfg", "MC_NC_q5.cfg"],
-                                                             "thorough": ["MC_NC_q1.cfg", "MC_NC_q2.cfg", "MC_NC_q3.cfg", "MC_NC_bad.cfg", "MC_NC_q5.cfg", "MC_NC_t5.cfg", "MC_NC_q6.cfg"]}, ["C05"], strict=False)],
+                                                             "thorough": ["MC_NC_q1.cfg", "MC_NC_q2.cfg", "MC_NC_q3.cfg", "MC_NC_bad.cfg", "MC_NC_q5.cfg", "MC_NC_t5.cfg", "MC_NC_q6.cfg"]}, ["C05"], strict=False),
+                    # tokens showing up at other addresses: every finished behaviour of the focused configuration is replayed
+                    mc_job("nc_hijack", "MC_Netcode", {"quick": ["MC_NC_q7.cfg"], "thorough": ["MC_NC_q7.cfg"]}, ["C05"], strict=False, cap_q=1200)],
                 level="model_checking", assumptions=NC_ASSUME),
     "C07": Plan("nc", "TraceNetcodeMon", ["C07"], [("shapes", g_nc_shapes), ("bits", g_nc_bits), ("handshake_histories", g_nc_handshake)],
                 mc=[mc_job("nc_cross", "MC_Netcode", {"quick": ["MC_NC_q3.cfg"], "thorough": ["MC_NC_q1.cfg", "MC_NC_q3.cfg"]}, ["C07"], strict=False)],
@@ -749,7 +751,7 @@ PLANS = {
                 level="model_checking", assumptions=NC_ASSUME),
     "C19": Plan("nc", "TraceNetcodeMon", ["C19"], [("handshake_histories", g_nc_handshake), ("shapes", g_nc_shapes), ("token_table", g_nc_tokentable_thorough)],
                 mc=[mc_job("nc_cross", "MC_Netcode", {"quick": ["MC_NC_q1.cfg", "MC_NC_q5.cfg", "MC_NC_q6.cfg"],
-                                                             "thorough": ["MC_NC_q1.cfg", "MC_NC_q3.cfg", "MC_NC_bad.cfg", "MC_NC_q5.cfg", "MC_NC_t5.cfg", "MC_NC_q6.cfg"]}, ["C19"], strict=False)],
+                                                             "thorough": ["MC_NC_q1.cfg", "MC_NC_q3.cfg", "MC_NC_bad.cfg", "MC_NC_q5.cfg", "MC_NC_t5.cfg", "MC_NC_q6.cfg", "MC_NC_q7.cfg"]}, ["C19"], strict=False)],
                 level="model_checking", assumptions=NC_ASSUME),
     "C01": Plan("msg", "TraceRenetMon", ["C01"], [("random_ro", g_random_ro), ("random_mixed", g_random_mixed)],
                 mc=[mc_job("conn_ro", "MC_Conn", {"quick": ["MC_C01_q1.cfg"], "thorough": ["MC_C01_q1.cfg", "MC_C01_t1.cfg", "MC_C01_t2.cfg"]}, ["C01"])],
